@@ -107,59 +107,89 @@ func TestC04Fieldsets(t *testing.T) {
 		o.NoErrors = true
 		c := gen.Document(t, o)
 
-		var (
-			out []byte
-			err error
-		)
-
-		if p := oracle.Try(func() { out, err = jsonapi.MarshalDocument(c.Doc, c.URL) }); p != nil {
-			t.Fatalf("C04 violated: MarshalDocument %s\ncase: %s", p, c)
-		}
-
-		if err != nil {
-			t.Fatalf("C04 violated: MarshalDocument failed: %v\ncase: %s", err, c)
-		}
-
-		ds, derr := oracle.DecodeDocument(out)
-		if derr != nil {
-			t.Fatalf("C04 violated: %v\ncase: %s\noutput: %s", derr, c, out)
-		}
-
-		models := map[string]gen.ResModel{}
-		for _, m := range append(append([]gen.ResModel{}, c.Primary...), c.Included...) {
-			models[pairKey(m.TS.Name, m.ID())] = m
-		}
-
-		objs := append([]oracle.ResObj{}, ds.Included...)
-		if len(c.Idents) == 0 {
-			objs = append(objs, ds.Primary...)
-		}
-
-		if len(objs) != len(models) {
-			t.Fatalf("C04 violated: %d resource objects in the output, %d resources in the document\ncase: %s\noutput: %s", len(objs), len(models), c, out)
-		}
-
 		strict := map[string]bool{}
 		distinctSel := map[string]bool{}
 
-		for _, ro := range objs {
-			m, ok := models[pairKey(ro.Type, ro.ID)]
-			if !ok {
-				t.Fatalf("C04 violated: output has resource object %s %q that the document does not hold\ncase: %s\noutput: %s", ro.Type, ro.ID, c, out)
+		// One marshal of the document with the URL, checked object by object
+		// against the model.
+		marshalAndCheck := func(round string) {
+			var (
+				out []byte
+				err error
+			)
+
+			if p := oracle.Try(func() { out, err = jsonapi.MarshalDocument(c.Doc, c.URL) }); p != nil {
+				t.Fatalf("C04 violated: MarshalDocument (%s) %s\ncase: %s", round, p, c)
 			}
 
-			if msg := fieldsetOracle(c, m, ro); msg != "" {
-				t.Fatalf("C04 violated: %s\ncase: %s\noutput: %s", msg, c, out)
+			if err != nil {
+				t.Fatalf("C04 violated: MarshalDocument (%s) failed: %v\ncase: %s", round, err, c)
 			}
 
-			a, rl := c.SelectedFields(m.TS)
-			n := len(a) + len(rl)
-
-			if n > 0 && n < len(m.TS.Fields()) {
-				strict[m.TS.Name] = true
+			ds, derr := oracle.DecodeDocument(out)
+			if derr != nil {
+				t.Fatalf("C04 violated: %v (%s)\ncase: %s\noutput: %s", derr, round, c, out)
 			}
 
-			distinctSel[fmt.Sprint(a, rl)] = true
+			models := map[string]gen.ResModel{}
+			for _, m := range append(append([]gen.ResModel{}, c.Primary...), c.Included...) {
+				models[pairKey(m.TS.Name, m.ID())] = m
+			}
+
+			objs := append([]oracle.ResObj{}, ds.Included...)
+			if len(c.Idents) == 0 {
+				objs = append(objs, ds.Primary...)
+			}
+
+			if len(objs) != len(models) {
+				t.Fatalf("C04 violated: %d resource objects in the output, %d resources in the document (%s)\ncase: %s\noutput: %s", len(objs), len(models), round, c, out)
+			}
+
+			for _, ro := range objs {
+				m, ok := models[pairKey(ro.Type, ro.ID)]
+				if !ok {
+					t.Fatalf("C04 violated: output has resource object %s %q that the document does not hold (%s)\ncase: %s\noutput: %s", ro.Type, ro.ID, round, c, out)
+				}
+
+				if msg := fieldsetOracle(c, m, ro); msg != "" {
+					t.Fatalf("C04 violated: %s (%s)\ncase: %s\noutput: %s", msg, round, c, out)
+				}
+
+				a, rl := c.SelectedFields(m.TS)
+				n := len(a) + len(rl)
+
+				if n > 0 && n < len(m.TS.Fields()) {
+					strict[m.TS.Name] = true
+				}
+
+				distinctSel[fmt.Sprint(a, rl)] = true
+			}
+		}
+
+		marshalAndCheck("first marshal")
+
+		// The same document and URL objects once more: what the first marshal
+		// did to them (it may sort lists) must not change what is selected.
+		marshalAndCheck("second marshal of the same document and URL")
+
+		// Then with everything selected and all relationship data asked for
+		// (new lists in the same URL and document): the resources still have
+		// all their fields.
+		if rapid.Bool().Draw(t, "widen") {
+			for i := range c.SS.Types {
+				ts := &c.SS.Types[i]
+				c.Selection[ts.Name] = ts.Fields()
+				c.RelData[ts.Name] = nil
+
+				for _, rel := range ts.Rels {
+					c.RelData[ts.Name] = append(c.RelData[ts.Name], rel.FromName)
+				}
+			}
+
+			c.URL.Params.Fields = gen.CopyStrLists(c.Selection)
+			c.Doc.RelData = gen.CopyStrLists(c.RelData)
+
+			marshalAndCheck("marshal after the selection was widened to everything")
 		}
 
 		labels := docLabels(c)
